@@ -4,6 +4,8 @@
    another source and every prefix of the case is queried.
    Prints  model ||| spec ||| classes  when they differ (class KW = the recorded
    window finding, BgpSessionModel.bs_known_window).
+   Op M (C15 profile): the counters of the unit's status reporter after the session
+   (BgpSessionModel.bsm_process), token met:lost=<n>,disc=<n>.
    Case grammar: see harness/src/engines/bgpend.rs. *)
 open Conv
 open BgpSessionModel
@@ -16,7 +18,7 @@ let plist tok = if tok = "-" then [] else Stdlib.List.map (fun t -> n (int_of_st
 let ints tok = if tok = "-" then [] else Stdlib.List.map int_of_string (split_on ',' tok)
 
 let run_case (line : string) : string =
-  let id = ref 7 and dup = ref false and other = ref true in
+  let id = ref 7 and dup = ref false and other = ref true and metrics = ref false in
   let pre = ref [] and evs = ref [] and queried = ref [] in
   let routes a ps ws =
     queried := ints ps @ ints ws @ !queried;
@@ -40,6 +42,7 @@ let run_case (line : string) : string =
       | ["r"; "peer"] -> evs := !evs @ [BReconf BRPeer]
       | ["r"; "gone"] -> evs := !evs @ [BReconf BRGone]
       | ["r"; "other"] -> evs := !evs @ [BReconf BROthers]
+      | ["M"] -> metrics := true
       | _ -> failwith ("bad op: " ^ op)) (split_on ';' line);
   let idn = n !id in
   let live0 = bs_live_of ((if !dup then [n peer_key] else []) @ (if !other then [n other_key] else [])) in
@@ -73,6 +76,12 @@ let run_case (line : string) : string =
     (head, live, cmds :: Stdlib.List.map q qs) in
   let (mh, ml, mt) = render (bs_process idn (n peer_key) live0 !evs) in
   let (sh, sl, st) = render (bs_process_spec idn (n peer_key) live0 !evs) in
+  (* op M (C15): the unit's own counters after the session, bsm_process from zeroed counters; the property
+     demands what the model does (C15_bgp_counters_count) *)
+  let met = if not !metrics then [] else begin
+      let ((_, m), _) = bsm_process idn (n peer_key) live0 { bm_lost = n 0; bm_disc = n 0 } !evs in
+      [Printf.sprintf "met:lost=%d,disc=%d" (int_of_n m.bm_lost) (int_of_n m.bm_disc)] end in
+  let mt = mt @ met and st = st @ met in
   let m = join " " (mh @ [ml] @ mt) and s = join " " (sh @ [sl] @ st) in
   if m = s then m
   else begin
